@@ -112,6 +112,38 @@ theorem ids_fresh (ops : List Op) (st : St) : increasing (issued (run ops st).1)
 theorem commit_removes (a : Abs) (id : Nat) : ∀ e ∈ (absStep (.commit id) a).2.pending, e.id ≠ id := by
   intro e he; simp only [absStep, List.mem_filter, decide_eq_true_eq] at he; exact he.2
 
+/-- once committed (the closure exists only after the `Put`, so the event is not in flight), an event
+is never replayed again, whatever happens afterwards: no later recovery of any continuation of the
+history calls a handler for its id -/
+theorem committed_never_replayed (a : Abs) (id : Nat) (hid : id ≤ a.next) (hfl : ∀ e ∈ a.inflight, e.id ≠ id)
+    (ops : List Op) (reg : List String) (out : Event → HOut) :
+    id ∉ replayedIds (absCalls reg out (absRun ops (absStep (.commit id) a).2).2.pending) := by
+  have hg : Gone id (absStep (.commit id) a).2 :=
+    ⟨hid, fun e he => by simp only [absStep, List.mem_filter, decide_eq_true_eq] at he; exact he.2, hfl⟩
+  have := (hg.run id ops _).2.1
+  rw [replayed_iff_pending]
+  rintro ⟨e, he, heq, _⟩
+  exact this e he heq
+
+/-- the same for an event a recovery removed (handler succeeded or declared it unnecessary) -/
+theorem removed_never_replayed (a : Abs) (reg : List String) (out : Event → HOut) (e : Event)
+    (he : e ∈ a.pending) (hs : Sorted a.pending) (hrm : removes reg out e = true)
+    (hnext : e.id ≤ a.next) (hfl : ∀ x ∈ a.inflight, x.id ≠ e.id)
+    (ops : List Op) (reg' : List String) (out' : Event → HOut) :
+    e.id ∉ replayedIds (absCalls reg' out' (absRun ops (absStep (.recover reg out) a).2).2.pending) := by
+  have hg : Gone e.id (absStep (.recover reg out) a).2 := by
+    refine ⟨hnext, ?_, hfl⟩
+    intro x hx
+    simp only [absStep, List.mem_filter] at hx
+    intro hid
+    have : x = e := sorted_id_inj a.pending hs x e hx.1 he hid
+    subst this
+    simp [hrm] at hx
+  have := (hg.run e.id ops _).2.1
+  rw [replayed_iff_pending]
+  rintro ⟨x, hx, heq, _⟩
+  exact this x hx heq
+
 theorem reopen_keeps_pending (a : Abs) : (absStep .reopen a).2.pending = a.pending ∧ (absStep .reopen a).2.next = a.next :=
   ⟨rfl, rfl⟩
 
